@@ -1,36 +1,40 @@
 From PW Require Import Pickle.State.
 Open Scope Z_scope.
 
-Inductive eres := XOk (restored : list (nat * list (Z * rval))) (final_heap : heap) | XErr (e : merr).
+Inductive eres := XOk (restored : list (nat * list (Z * rval))) | XErr (e : merr).
 
+Fixpoint leqb {A} (eq : A -> A -> bool) (a b : list A) : bool :=
+  match a, b with [], [] => true | x :: a', y :: b' => eq x y && leqb eq a' b' | _, _ => false end.
+
+(* restored values: a dictionary that replaced an entry is compared as "a dictionary" *)
 Definition rval_eqb (a b : rval) : bool :=
   match a, b with
   | RAtom x, RAtom y => x =? y
   | RObj i, RObj j => Nat.eqb i j
   | RCont, RCont => true
-  | RDict a, RDict b => Nat.eqb a b
+  | RDictV _, RDictV _ => true
   | _, _ => false
   end.
-Fixpoint leqb {A} (eq : A -> A -> bool) (a b : list A) : bool :=
-  match a, b with [], [] => true | x :: a', y :: b' => eq x y && leqb eq a' b' | _, _ => false end.
 Definition field_eqb (a b : Z * rval) := (fst a =? fst b) && rval_eqb (snd a) (snd b).
 Definition obj_eqb (a b : nat * list (Z * rval)) := Nat.eqb (fst a) (fst b) && leqb field_eqb (snd a) (snd b).
-Definition pv_eqb (a b : pv) : bool :=
-  match a, b with
-  | PVal x, PVal y => x =? y
-  | PDictRef i, PDictRef j => Nat.eqb i j
-  | PObjRef i, PObjRef j => Nat.eqb i j
-  | _, _ => false
-  end.
-Definition pd_eqb (a b : pdict) := leqb (fun x y => (fst x =? fst y) && pv_eqb (snd x) (snd y)) a b.
-Definition heap_eqb (a b : heap) := leqb (fun x y => Nat.eqb (fst x) (fst y) && pd_eqb (snd x) (snd y)) a b.
 Definition merr_eqb (a b : merr) : bool :=
   match a, b with EAssert, EAssert | EAttribute, EAttribute | EIndex, EIndex | ETypeErr, ETypeErr => true | _, _ => false end.
 
-(* heaps are compared on the addresses the harness lists *)
-Definition check_load (g : node) (h : heap) (top : option nat) (expected : eres) : bool :=
-  match load g h top, expected with
+Definition check_load (g : node) (p : pdict) (expected : eres) : bool :=
+  match load g p, expected with
   | inl e, XErr e' => merr_eqb e e'
-  | inr s, XOk r fh => leqb obj_eqb (restored s) r && heap_eqb (map (fun p => (fst p, hget (hp s) (fst p))) fh) fh
+  | inr s, XOk r => leqb obj_eqb (restored s) r
   | _, _ => false
   end.
+
+(* the dump side: which reduce callable (announced or not) and which children_names the pickler chose per instance *)
+Definition recreates (es : list ev) : list (nat * list Z * bool) :=
+  flat_map (fun e => match e with ERecreate id names _ a => [(id, names, a)] | _ => [] end) es.
+Definition rec_eqb (a b : nat * list Z * bool) : bool :=
+  let '(i, n, x) := a in let '(j, m, y) := b in Nat.eqb i j && leqb Z.eqb n m && Bool.eqb x y.
+Definition check_dump (g : node) (expected : list (nat * list Z * bool)) : bool :=
+  leqb rec_eqb (recreates (dump_events g)) expected.
+
+(* the implementation's restored states against the SPECIFICATION directly *)
+Definition check_spec (g : node) (p : pdict) (observed : list (nat * list (Z * rval))) : bool :=
+  leqb obj_eqb (spec g (top_patches g p)) observed.
